@@ -1,5 +1,5 @@
 //@unit daser
-//@serves C33 C34
+//@serves C33 C34 C35
 use vstd::prelude::*;
 use std::ops::RangeInclusive;
 verus! {
@@ -335,7 +335,7 @@ impl Worker {
 //@end
 
 //@fn impl<S> Worker<S> :: on_want_to_prune
-//@props C34
+//@props C34 C35
 //@refarg remove_relaxed insert_relaxed
     async fn on_want_to_prune(&mut self, height: u64) -> (granted: bool)
         requires old(self).inv(), height >= 1
@@ -386,7 +386,7 @@ impl Worker {
 //@end
 
 //@fn impl<S> Worker<S> :: schedule_next_sample_block
-//@props C33 C34
+//@props C33 C34 C35
 //@refarg insert_relaxed remove_relaxed
 //@addarg "self.store.update_sampling_metadata" "&mut self.log"
     async fn schedule_next_sample_block(&mut self) -> (r: DResult<bool>)
@@ -463,7 +463,7 @@ impl Worker {
 //@end
 
 //@fn impl<S> Worker<S> :: connected_event_loop
-//@props C33 C34
+//@props C33 C34 C35
 //@block "Some(res) = self.sampling_futs.next() => {"
 //@refarg insert_relaxed remove_relaxed
 //@addarg "self.store.mark_as_sampled" "&mut self.log"
